@@ -49,7 +49,7 @@ var (
 			{Name: "ExprEnd", Pattern: `}`, Action: lexer.Pop()},
 		},
 	})
-	statefulParser = participle.MustBuild[statefulString](participle.Lexer(statefulDef),
+	statefulParser = mustBuild[statefulString](participle.Lexer(statefulDef),
 		participle.Elide("Whitespace"))
 )
 
